@@ -2959,6 +2959,10 @@ class quantized_po2(base_quantizer.BaseQuantizer):  # pylint: disable=invalid-na
     if self.quadratic_approximation:
       flags.append(
           "quadratic_approximation=" + str(int(self.quadratic_approximation)))
+    if self.log2_rounding != "rnd":
+      flags.append("log2_rounding='" + str(self.log2_rounding) + "'")
+    if not self.use_ste:
+      flags.append("use_ste=False")
     return "quantized_po2(" + ",".join(flags) + ")"
 
   def __call__(self, x):
@@ -3110,6 +3114,10 @@ class quantized_relu_po2(base_quantizer.BaseQuantizer):  # pylint: disable=inval
     if self.quadratic_approximation:
       flags.append(
           "quadratic_approximation=" + str(int(self.quadratic_approximation)))
+    if self.log2_rounding != "rnd":
+      flags.append("log2_rounding='" + str(self.log2_rounding) + "'")
+    if not self.use_ste:
+      flags.append("use_ste=False")
     return "quantized_relu_po2(" + ",".join(flags) + ")"
 
   def __call__(self, x):
